@@ -25,7 +25,8 @@ use std::time::{Duration, Instant};
 static ALL_CFGS: std::sync::OnceLock<Vec<Cfg>> = std::sync::OnceLock::new();
 /// every configuration (level 2), built once; used to find width twins
 pub fn all_cfgs_cached() -> &'static [Cfg] {
-    ALL_CFGS.get_or_init(|| allcfgs::all_cfgs(2))
+    // (under Miri: without the thorough-only configurations; merely observing the width of an 8192-wide toy costs minutes there)
+    ALL_CFGS.get_or_init(|| allcfgs::all_cfgs(if cfg!(miri) { 1 } else { 2 }))
 }
 
 fn arg<'a>(args: &'a [String], name: &str) -> Option<&'a str> {
@@ -235,6 +236,7 @@ fn cmd_run(args: &[String]) -> i32 {
     result.put("profile", J::s(if cfg!(debug_assertions) { "checked" } else { "plain" }));
     result.put("zeroize_feature", J::Bool(cfg!(feature = "zeroize")));
     result.put("platform", platform());
+    result.put("concrete_receiver_types_registered", J::i(bmv_core::subj::conc_registered() as i128));
     write_out(out, &result);
     if !total.harness_errors.is_empty() {
         return 2;
